@@ -293,7 +293,11 @@ def _coqc_scratch(name, text, timeout=900):
     os.makedirs(d, exist_ok=True)
     p = os.path.join(d, name + ".v")
     open(p, "w").write(text)
-    rc, o, e = sh(["coqc", "-Q", os.path.join(COQ, "theories"), "QV", "-noglob", "-o", p + "o", p], cwd=d, timeout=timeout)
+    # vm_compute over large generated cases (thorough tier: tables of 1000+ rows) recurses deeply in non-tail-recursive
+    # Gallina functions; the default 8 MiB stack overflows ("Error: Stack overflow"), so the evaluation runs with the
+    # stack limit lifted as far as the hard limit allows
+    rc, o, e = sh(["bash", "-c", 'ulimit -s unlimited 2>/dev/null || ulimit -s $(ulimit -H -s) 2>/dev/null; exec coqc "$@"', "coqc",
+                   "-Q", os.path.join(COQ, "theories"), "QV", "-noglob", "-o", p + "o", p], cwd=d, timeout=timeout)
     return rc, o, e
 
 
